@@ -28,7 +28,7 @@ def run(chk):
     inpre = sum(1 for ln, o in r["lines"] if o["class"] in ("random-pre", "sat-count", "subset-order", "sat-id"))
     chk.cov["distinct_nontrivial"] = len(set(ln for ln, o in r["lines"] if o["class"] in ("random-pre", "sat-count", "subset-order", "sat-id")))
     if inpre < 300:
-        raise ToolError("vacuity: %d lists inside the precondition" % inpre)
+        chk.vacuity("vacuity: %d lists inside the precondition" % inpre)
     chk.assumptions += ["list offsets inside the payload (61 / 58 / 25 bits) follow the library's own header layout (cross-checked by the extractor for 1059/1065)"]
     return chk.finish("model_checking", RULE)
 
